@@ -20,6 +20,7 @@ import numpy as np
 from lib import core
 
 EXTRACTORS = ["Update"]
+EXTRA_PROPS = ["C14Join", "C14Dtype"]   # lower_update_correct_partial, lower_get_at_correct, intermediate_spec; index dtype obligations
 MODES = ("set", "add", "sub")
 OPNAME = {"set": "set_at", "add": "add_at", "sub": "subtract_at"}
 BACKENDS = ("numpy", "numpy.numpylike")
